@@ -151,7 +151,7 @@ def run(ctx):
         gname = rng.choice(CORPUS) if rng.random() < 0.85 else "random"
         g = GG.FEATURE[gname] if gname != "random" else GG.random_grammar(rng, max_nts=4)
         m = G(g)
-        gen = FGen(g, rng, m)
+        gen = FGen(g, rng, m, smt_bool=True)
         if rng.random() < 0.35:
             gen.naming = "underscore"       # x and y then share the names v, v_0, v_1, ... at different nesting depths
             ctx.count("formulas_with_fresh_name_bait")
